@@ -94,7 +94,7 @@ pub fn run(ctx: Arc<Ctx>) {
 	ctx.rule(
 		"catalogue of 12 small valid vector tiles built by an independent MVT encoder (disjoint/overlapping layer names, tables in other order / with duplicates / unused entries, ids none/0/2^64-1, all value kinds, extents, empty layer); \
 		 every ordered pair (quick) and every ordered triple (thorough; quick: triples over the first 6) as source lists; each source holds its tile at one coordinate per presence mask, so every presence pattern occurs; source compressions mixed. \
-		 plus every ordered pair of a bounded-exhaustive family of small layers of one name (5 key tables x 4 value tables x feature lists with every tag list of <= 2 pairs; every 2nd per side in quick, all in thorough) merged through one pipeline whose sources hold layer i resp. j at (10,i,j). oracle on independently decoded output: layer set, features in source order with id/type/geometry bytes/property set, declared+delivered uncompressed, lookups = stream. non-trivial = (source list, presence mask) with >= 2 sources present",
+		 plus every ordered pair of a bounded-exhaustive family of small layers of one name (5 key tables x 4 value tables x feature lists with every tag list of <= 2 pairs; every 2nd per side in quick, all in thorough) merged through one pipeline whose sources hold layer i resp. j at (10,i,j). plus merges whose key/value tables cross 128 / 16384 (thorough: 2^21) entries only after merging. oracle on independently decoded output: layer set, features in source order with id/type/geometry bytes/property set, declared+delivered uncompressed, lookups = stream. non-trivial = (source list, presence mask) with >= 2 sources present",
 	);
 	let cat = catalogue();
 	let decoded: Vec<Vec<DLayer>> = cat.iter().map(|(n, t)| mvt::decode_tile(&mvt::encode_tile(t)).unwrap_or_else(|e| panic!("catalogue tile '{n}' does not decode: {e}"))).collect();
@@ -235,6 +235,7 @@ pub fn run(ctx: Arc<Ctx>) {
 		ctxr.trace(1);
 	});
 	systematic(&ctx, &work.0);
+	big_tables(&ctx, &work.0);
 	ctx.sample(json!({"catalogue": cat.iter().map(|c| c.0).collect::<Vec<_>>(), "example_source_list": tuples[tuples.len() / 2].iter().map(|i| cat[*i].0).collect::<Vec<_>>()}));
 	ctx.outcome_n("source lists (ordered tuples)", tuples.len() as u64);
 	ctx.exhaustive(true);
@@ -315,6 +316,68 @@ fn systematic(ctx: &Arc<Ctx>, work: &std::path::Path) {
 	});
 	ctx.extra("systematic_small_layers", json!({"family_size": all.len(), "used_per_side": n, "ordered_pairs": n as u64 * n as u64}));
 	ctx.trace(1);
+}
+
+/// Two (three) sources whose equally named layers each stay below, but together cross, the sizes at which
+/// the varint encoding of a key/value index grows by a byte (128, 16384; thorough: 2^21 as well).
+fn big_tables(ctx: &Arc<Ctx>, work: &std::path::Path) {
+	let sizes: Vec<Vec<u32>> = ctx.tier.pick(vec![vec![70, 70], vec![9000, 9000], vec![6000, 6000, 6000]], vec![vec![70, 70], vec![127, 1], vec![128, 1], vec![9000, 9000], vec![6000, 6000, 6000], vec![16383, 1], vec![16384, 1], vec![1_100_000, 1_100_000]]);
+	let (ctxr, sr): (&Ctx, _) = (ctx, &sizes);
+	par_for(sizes.len(), |si| {
+		let ns = &sr[si];
+		let rt = crate::memsource::runtime(2);
+		let mut sources = vec![];
+		let mut decoded = vec![];
+		let mut base = 0u32;
+		for (j, &n) in ns.iter().enumerate() {
+			let values: Vec<(Enc, MVal)> = (0..n).map(|i| mvt::s(&format!("v{}", base + i))).collect();
+			let keys: Vec<String> = (0..n.min(300)).map(|i| format!("k{}", base + i)).collect();
+			let keyrefs: Vec<&str> = keys.iter().map(|k| k.as_str()).collect();
+			let feats: Vec<mvt::MFeature> = (0..n).map(|i| feat(Some((base + i) as u64), &[i % keyrefs.len() as u32, i], 1, point((i % 4000) as i32, 1))).collect();
+			let raw = mvt::encode_tile(&[layer("big", &keyrefs, values, feats)]);
+			decoded.push(mvt::decode_tile(&raw).expect("big tile decodes"));
+			let mut tiles = TileMap::new();
+			tiles.insert((3, 1, 1), codec::encode_with((j % 3) as u8, &raw));
+			sources.push(MemSource::new(&format!("s{j}"), tiles, TileFormat::PBF, ct::comp_from_id((j % 3) as u8)));
+			base += n;
+		}
+		let k = ns.len();
+		let vpl = format!("from_vectortiles_merged [ {} ]", (0..k).map(|j| format!("from_container filename=\"mem:{j}\"")).collect::<Vec<_>>().join(", "));
+		let fac = pipeline::factory(sources, work);
+		let case = json!({"big_tables": ns});
+		let label = format!("sources with {ns:?} distinct values in one layer name");
+		ctxr.eval();
+		let op = match pipeline::build_op(&rt, &fac, &vpl) {
+			Ok(o) => o,
+			Err(e) => return ctxr.violation("merge pipeline cannot be built", &format!("{vpl}: {e}"), case),
+		};
+		let src = AnySrc::Op(op);
+		let via_lookup = catch(|| rt.block_on(src.lookup((3, 1, 1))));
+		let via_stream = catch(|| rt.block_on(src.stream(TileBBox::new(3, 0, 0, 7, 7).unwrap())));
+		let want = reference_merge(&decoded);
+		let mut judge = |bytes: &[u8], path: &str| match mvt::decode_tile(bytes) {
+			Err(e) => ctxr.violation("merged tile is not a (uncompressed) vector tile", &format!("{label} ({path}): {e}"), case.clone()),
+			Ok(layers) => {
+				if let Some(why) = compare_layers(&layers, &want) {
+					ctxr.violation("merged feature differs (id, geometry type, geometry or property set) or is out of source order", &format!("{label} ({path}): {}", why.chars().take(300).collect::<String>()), case.clone());
+				}
+			}
+		};
+		match via_lookup {
+			Ok(Ok(Some(b))) => judge(&b, "lookup"),
+			Ok(Ok(None)) => ctxr.violation("merged tile missing although a source has a tile", &label, case.clone()),
+			Ok(Err(e)) => ctxr.violation(&format!("merge lookup fails: {}", super::c01::norm_msg(&e.to_string())), &format!("{label}: {e:#}"), case.clone()),
+			Err(p) => ctxr.violation(&format!("merge lookup panics at {}", panic_site(&p)), &format!("{label}: {p}"), case.clone()),
+		}
+		match via_stream {
+			Ok(items) if items.len() == 1 => judge(&items[0].1, "stream"),
+			Ok(items) => ctxr.violation("merged tile missing although a source has a tile", &format!("{label}: stream delivers {} tiles", items.len()), case.clone()),
+			Err(p) => ctxr.violation(&format!("merge stream panics at {}", panic_site(&p)), &format!("{label}: {p}"), case.clone()),
+		}
+		ctxr.nontrivial(fnv_str(&format!("big{ns:?}")));
+		ctxr.trace(1);
+	});
+	ctx.outcome_n("large-table merges (index varint width thresholds)", sizes.len() as u64);
 }
 
 pub fn replay(_ctx: Arc<Ctx>, case: &Value) {
